@@ -67,6 +67,8 @@ struct Row {
     adm: Vec<u8>,
     code: u8,
     names: Vec<u8>,
+    /// probe indices (1-based) of the authorities the spec lets through on a connection with this SNI
+    route: Vec<u8>,
 }
 
 struct Node {
@@ -132,7 +134,7 @@ fn read_graph(input: &mut dyn Read) -> Graph {
     for r in &raw {
         let st = St::from_json(&r["state"]);
         let table = r["table"].as_array().unwrap().iter().map(|t| Row {
-            adm: u8s(&t["adm"]), code: t["code"].as_u64().unwrap() as u8, names: u8s(&t["names"]),
+            adm: u8s(&t["adm"]), code: t["code"].as_u64().unwrap() as u8, names: u8s(&t["names"]), route: u8s(&t["route"]),
         }).collect();
         let succ: Vec<Vec<usize>> = r["succ"].as_array().unwrap().iter().map(|set| {
             set.as_array().unwrap().iter().map(|s| *index.get(&St::from_json(s)).expect("successor is a reachable state")).collect()
@@ -262,36 +264,59 @@ fn hex_of(f: &Fingerprint, rng: &mut Rng) -> String {
 // ---------------------------------------------------------------------------------------------
 // executing one operation on the real resolver, projecting the real state
 
-/// Ok(()) or Err(description) when the call's own answer is not what the spec says
-fn apply(g: &Graph, c: &Conc, r: &mut CertificateResolver, op: &Op, rng: &mut Rng) -> Result<(), String> {
+/// One concrete request, as the control plane would carry it
+enum Req {
+    Add(AddCertificate, Fingerprint),
+    Remove(Fingerprint),
+    /// (request, fingerprint of the new certificate, must the call fail?)
+    Replace(ReplaceCertificate, Fingerprint, bool),
+}
+
+fn build(g: &Graph, c: &Conc, op: &Op, addr: SocketAddress, rng: &mut Rng) -> Req {
     match op.kind {
         Kind::Add => {
             let (certificate, expired_at) = cert_and_key(g, c, op.v, rng);
-            match r.add_certificate(&AddCertificate { address: address(), certificate, expired_at }) {
-                Ok(fp) if fp == c.fps[g.variants[op.v - 1].fp - 1] => Ok(()),
-                Ok(fp) => Err(format!("add_certificate returned fingerprint {fp}")),
-                Err(e) => Err(format!("add_certificate of a valid certificate failed: {e}")),
-            }
+            Req::Add(AddCertificate { address: addr, certificate, expired_at }, c.fps[g.variants[op.v - 1].fp - 1].clone())
         }
-        Kind::Remove => r.remove_certificate(&c.fps[op.f - 1]).map_err(|e| format!("remove_certificate failed: {e}")),
+        Kind::Remove => Req::Remove(c.fps[op.f - 1].clone()),
         Kind::Replace | Kind::ReplaceBadOld => {
             let (new_certificate, new_expired_at) = cert_and_key(g, c, op.v, rng);
             let old_fingerprint = if op.kind == Kind::Replace { hex_of(&c.fps[op.f - 1], rng) }
                                   else { ["zz", "", "abc", "0x12"][rng.below(4)].to_string() };
-            match r.replace_certificate(&ReplaceCertificate { address: address(), new_certificate, old_fingerprint, new_expired_at }) {
-                Ok(fp) if fp == c.fps[g.variants[op.v - 1].fp - 1] => Ok(()),
-                Ok(fp) => Err(format!("replace_certificate returned fingerprint {fp}")),
-                Err(e) => Err(format!("replace_certificate with a valid new certificate failed: {e}")),
-            }
+            Req::Replace(ReplaceCertificate { address: addr, new_certificate, old_fingerprint, new_expired_at },
+                         c.fps[g.variants[op.v - 1].fp - 1].clone(), false)
         }
         Kind::ReplaceFail => {
             let new_certificate = broken_cert_and_key(g, c, rng);
-            match r.replace_certificate(&ReplaceCertificate { address: address(), new_certificate, old_fingerprint: hex_of(&c.fps[op.f - 1], rng), new_expired_at: None }) {
-                Err(_) => Ok(()),
-                Ok(fp) => Err(format!("replace_certificate with an unusable new certificate answered Ok({fp})")),
-            }
+            Req::Replace(ReplaceCertificate { address: addr, new_certificate, old_fingerprint: hex_of(&c.fps[op.f - 1], rng), new_expired_at: None },
+                         Fingerprint(Vec::new()), true)
         }
     }
+}
+
+/// Ok(()) or Err(description) when the call's own answer is not what the spec says
+fn exec(r: &mut CertificateResolver, req: &Req) -> Result<(), String> {
+    match req {
+        Req::Add(add, want) => match r.add_certificate(add) {
+            Ok(fp) if fp == *want => Ok(()),
+            Ok(fp) => Err(format!("add_certificate returned fingerprint {fp}")),
+            Err(e) => Err(format!("add_certificate of a valid certificate failed: {e}")),
+        },
+        Req::Remove(fp) => r.remove_certificate(fp).map_err(|e| format!("remove_certificate failed: {e}")),
+        Req::Replace(rep, want, false) => match r.replace_certificate(rep) {
+            Ok(fp) if fp == *want => Ok(()),
+            Ok(fp) => Err(format!("replace_certificate returned fingerprint {fp}")),
+            Err(e) => Err(format!("replace_certificate with a valid new certificate failed: {e}")),
+        },
+        Req::Replace(rep, _, true) => match r.replace_certificate(rep) {
+            Err(_) => Ok(()),
+            Ok(fp) => Err(format!("replace_certificate with an unusable new certificate answered Ok({fp})")),
+        },
+    }
+}
+
+fn apply(g: &Graph, c: &Conc, r: &mut CertificateResolver, op: &Op, rng: &mut Rng) -> Result<(), String> {
+    exec(r, &build(g, c, op, address(), rng))
 }
 
 fn project(g: &Graph, c: &Conc, r: &CertificateResolver) -> Result<St, String> {
@@ -422,8 +447,23 @@ impl<'a> Runner<'a> {
     }
 
     fn step_inner(&mut self, k: usize, rng: &mut Rng) -> Result<usize, Viol> {
+        let req = build(self.g, self.c, &self.g.ops[k], address(), rng);
+        self.step_req(k, &req)
+    }
+
+    /// same as `step` with the concrete request already built (the worker leg sends the same one on the channel)
+    fn step_with(&mut self, k: usize, req: &Req) -> Result<usize, Viol> {
+        self.trace.push(Step { op: k, node: self.cur });
+        match catch_unwind(AssertUnwindSafe(|| self.step_req(k, req))) {
+            Ok(Ok(n)) => { self.cur = n; Ok(n) }
+            Ok(Err(v)) => Err(v),
+            Err(e) => Err(Viol { class: "panic".into(), detail: json!({"panic": vh::util::panic_message(e)}) }),
+        }
+    }
+
+    fn step_req(&mut self, k: usize, req: &Req) -> Result<usize, Viol> {
         let (g, c) = (self.g, self.c);
-        apply(g, c, &mut self.r, &g.ops[k], rng).map_err(|e| Viol { class: "op-result".into(), detail: json!({"error": e}) })?;
+        exec(&mut self.r, req).map_err(|e| Viol { class: "op-result".into(), detail: json!({"error": e}) })?;
         let st = project(g, c, &self.r).map_err(|e| Viol { class: "structure".into(), detail: json!({"error": e}) })?;
         let node = &g.nodes[self.cur];
         // Property level first: the admissible sets depend only on the abstract store, which is the same in
@@ -555,6 +595,277 @@ mod hs {
     }
 }
 
+// ---------------------------------------------------------------------------------------------
+// real worker: HTTPS listener, certificate commands over the channel, TLS over TCP, 421
+
+mod wk {
+    use std::io::{Read, Write};
+    use std::net::{SocketAddr, TcpListener, TcpStream};
+    use std::sync::atomic::{AtomicBool, Ordering};
+    use std::sync::{Arc, Mutex};
+    use std::time::Duration;
+
+    pub struct Backend {
+        pub addr: SocketAddr,
+        /// (path, host header) of every request that reached the backend
+        pub log: Arc<Mutex<Vec<(String, String)>>>,
+        stop: Arc<AtomicBool>,
+    }
+
+    fn serve(mut s: TcpStream, log: Arc<Mutex<Vec<(String, String)>>>) {
+        s.set_read_timeout(Some(Duration::from_secs(20))).ok();
+        let mut buf: Vec<u8> = Vec::new();
+        let mut tmp = [0u8; 4096];
+        loop {
+            while let Some(pos) = buf.windows(4).position(|w| w == b"\r\n\r\n") {
+                let head = String::from_utf8_lossy(&buf[..pos]).to_string();
+                buf.drain(..pos + 4);
+                let mut lines = head.split("\r\n");
+                let path = lines.next().unwrap_or("").split(' ').nth(1).unwrap_or("").to_string();
+                let host = lines.filter_map(|l| l.split_once(':')).find(|(k, _)| k.eq_ignore_ascii_case("host"))
+                    .map(|(_, v)| v.trim().to_string()).unwrap_or_default();
+                log.lock().unwrap().push((path, host));
+                if s.write_all(b"HTTP/1.1 200 OK\r\nContent-Length: 2\r\nX-C17-Backend: yes\r\n\r\nok").is_err() { return; }
+            }
+            match s.read(&mut tmp) {
+                Ok(0) | Err(_) => return,
+                Ok(n) => buf.extend_from_slice(&tmp[..n]),
+            }
+        }
+    }
+
+    pub fn start_backend(addr: SocketAddr) -> Backend {
+        let listener = TcpListener::bind(addr).expect("bind backend");
+        listener.set_nonblocking(true).unwrap();
+        let log = Arc::new(Mutex::new(Vec::new()));
+        let stop = Arc::new(AtomicBool::new(false));
+        let (l2, s2) = (log.clone(), stop.clone());
+        std::thread::spawn(move || {
+            while !s2.load(Ordering::SeqCst) {
+                match listener.accept() {
+                    Ok((s, _)) => { s.set_nonblocking(false).ok(); let l = l2.clone(); std::thread::spawn(move || serve(s, l)); }
+                    Err(_) => std::thread::sleep(Duration::from_millis(2)),
+                }
+            }
+        });
+        Backend { addr, log, stop }
+    }
+
+    impl Backend {
+        pub fn saw(&self, path: &str) -> bool { self.log.lock().unwrap().iter().any(|(p, _)| p == path) }
+    }
+    impl Drop for Backend {
+        fn drop(&mut self) { self.stop.store(true, Ordering::SeqCst); }
+    }
+
+    /// one HTTP/1.1 exchange on an established stream; returns (status, connection still usable)
+    pub fn h1_exchange<S: Read + Write>(s: &mut S, host: &str, path: &str) -> Result<(u16, bool), String> {
+        s.write_all(format!("GET {path} HTTP/1.1\r\nHost: {host}\r\nUser-Agent: c17\r\n\r\n").as_bytes()).map_err(|e| format!("write: {e}"))?;
+        let mut buf: Vec<u8> = Vec::new();
+        let mut tmp = [0u8; 4096];
+        let head_end = loop {
+            if let Some(pos) = buf.windows(4).position(|w| w == b"\r\n\r\n") { break pos; }
+            match s.read(&mut tmp) {
+                Ok(0) => return Err("eof before response".into()),
+                Ok(n) => buf.extend_from_slice(&tmp[..n]),
+                Err(e) => return Err(format!("read: {e}")),
+            }
+        };
+        let head = String::from_utf8_lossy(&buf[..head_end]).to_string();
+        let status: u16 = head.split(' ').nth(1).and_then(|x| x.parse().ok()).ok_or_else(|| format!("bad status line in {head:?}"))?;
+        let header = |name: &str| head.split("\r\n").skip(1).filter_map(|l| l.split_once(':')).find(|(k, _)| k.eq_ignore_ascii_case(name)).map(|(_, v)| v.trim().to_string());
+        let len: usize = header("content-length").and_then(|v| v.parse().ok()).unwrap_or(0);
+        let close = header("connection").map(|v| v.eq_ignore_ascii_case("close")).unwrap_or(false);
+        let mut have = buf.len() - head_end - 4;
+        while have < len {
+            match s.read(&mut tmp) {
+                Ok(0) | Err(_) => return Ok((status, false)),
+                Ok(n) => have += n,
+            }
+        }
+        Ok((status, !close && status == 200))
+    }
+}
+
+fn worker_leg(sh: &Shared, seed: u64, walks: usize, len: usize) -> Value {
+    use sozu_command_lib::config::ListenerBuilder;
+    use sozu_command_lib::proto::command::{ActivateListener, HardStop, ListenerType, RemoveCertificate, ResponseStatus, request::RequestType};
+    use std::time::Duration;
+    use vh::worker::{Worker, free_addr, ok};
+
+    let t = Duration::from_secs(5);
+    let (g, c) = (&sh.g, &sh.c);
+    let mut n_hs = 0u64;
+    let mut n_req = 0u64;
+    let mut n_routed = 0u64;
+    let mut n_421 = 0u64;
+    let mut n_other: BTreeMap<u16, u64> = BTreeMap::new();
+    let mut n_h2 = 0u64;
+    let mut n_cmd = 0u64;
+    let mut allowed_but_rejected = 0u64;
+    let mut default_served = 0u64;
+    let mut deviation_explained = 0u64;
+    let mut path_counter = 0u64;
+    let t0 = std::time::Instant::now();
+    for h in 0..walks {
+        let mut rng = Rng::new(seed.wrapping_mul(31).wrapping_add(h as u64));
+        let mut w = Worker::start_empty(&format!("c17w{h}"));
+        let front = free_addr();
+        let back = free_addr();
+        let backend = wk::start_backend(back);
+        let mut l = ListenerBuilder::new_https(front.into()).to_tls(None).expect("https listener config");
+        l.strict_sni_binding = Some(true);
+        let mut setup = ok(&w.request(RequestType::AddHttpsListener(l), t));
+        setup &= ok(&w.request(RequestType::ActivateListener(ActivateListener { address: front.into(), proxy: ListenerType::Https.into(), from_scm: false }), t));
+        setup &= ok(&w.request(RequestType::AddCluster(Worker::default_cluster("c17")), t));
+        for p in &c.probes {
+            setup &= ok(&w.request(RequestType::AddHttpsFrontend(Worker::http_frontend("c17", front, p, "/")), t));
+        }
+        setup &= ok(&w.request(RequestType::AddBackend(Worker::backend("c17", "b1", back)), t));
+        if !setup {
+            eprintln!("worker leg: could not set up the HTTPS listener / frontends");
+            std::process::exit(3);
+        }
+        let mut twin = Runner::new(g, c, &sh.stats);
+        let mut path: Vec<usize> = Vec::new();
+        let mut broken = false;
+        // fingerprint of the leaf the worker presents for `sni` (0 default, 1..nfp, Err)
+        let present = |sni: &str| -> Result<(u8, vh::h2::TlsStream), String> {
+            let (s, ver) = vh::h2::tls_connect(front, sni, &[b"http/1.1"], t)?;
+            let leaf = ver.leaf.lock().unwrap().clone().ok_or_else(|| "no certificate presented".to_string())?;
+            let d = Sha256::digest(&leaf).to_vec();
+            if d == c.default_fp { return Ok((0, s)); }
+            c.fps.iter().position(|f| f.0 == d).map(|k| (k as u8 + 1, s)).ok_or_else(|| "unknown leaf presented".to_string())
+        };
+        for _ in 0..len {
+            let node = &g.nodes[twin.cur];
+            let k = if rng.below(5) == 0 && !node.noops.is_empty() { node.noops[rng.below(node.noops.len())] }
+                    else { node.changing[rng.below(node.changing.len())] };
+            path.push(k);
+            let req = build(g, c, &g.ops[k], front.into(), &mut rng);
+            let (rt, must_fail) = match &req {
+                Req::Add(a, _) => (RequestType::AddCertificate(a.clone()), false),
+                Req::Remove(f) => (RequestType::RemoveCertificate(RemoveCertificate { address: front.into(), fingerprint: f.to_string() }), false),
+                Req::Replace(r, _, fail) => (RequestType::ReplaceCertificate(r.clone()), *fail),
+            };
+            let resp = w.request(rt, t);
+            n_cmd += 1;
+            let status = resp.as_ref().map(|r| r.status);
+            let fine = if must_fail { status == Some(ResponseStatus::Failure as i32) } else { status == Some(ResponseStatus::Ok as i32) };
+            if let Err(v) = twin.step_with(k, &req) { sh.report(v, &twin.trace, &path); broken = true; break; }
+            if !fine {
+                sh.report(Viol { class: "worker:command-status".into(), detail: json!({"status": status, "must_fail": must_fail,
+                    "message": resp.map(|r| r.message)}) }, &twin.trace, &path);
+                broken = true;
+                break;
+            }
+            // every probe name: real handshake over TCP
+            let node = &g.nodes[twin.cur];
+            for (i, p) in c.probes.iter().enumerate() {
+                let sni = if rng.below(4) == 0 { mixed_case(p, &mut rng) } else { p.clone() };
+                n_hs += 1;
+                match present(&sni) {
+                    Ok((f, _)) if node.table[i].adm.contains(&f) => {}
+                    Ok((f, _)) => sh.report(Viol { class: if f == 0 { "worker:covered-name-gets-default".into() } else if node.table[i].adm == [0] { "worker:uncovered-name-gets-certificate".into() } else { "worker:wrong-certificate".into() },
+                        detail: json!({"sni": sni, "presented": f, "admissible": node.table[i].adm}) }, &twin.trace, &path),
+                    Err(e) => sh.report(Viol { class: "worker:handshake-failed".into(), detail: json!({"sni": sni, "error": e}) }, &twin.trace, &path),
+                }
+            }
+        }
+        if !broken {
+            // strict SNI binding: on a connection with SNI i, request authority j (several spellings)
+            let node = &g.nodes[twin.cur];
+            let port = front.port();
+            for (i, sni) in c.probes.iter().enumerate() {
+                let row = &node.table[i];
+                let mut conn: Option<vh::h2::TlsStream> = None;
+                let mut conn_leaf: u8 = 255;
+                for (j, auth) in c.probes.iter().enumerate() {
+                    let mut spellings = vec![auth.clone()];
+                    spellings.push(match rng.below(4) { 0 => auth.to_uppercase(), 1 => format!("{auth}:{port}"), 2 => format!("{auth}."), _ => format!("{}:{port}", mixed_case(auth, &mut rng)) });
+                    for host in spellings {
+                        if conn.is_none() {
+                            match present(sni) {
+                                Ok((f, s)) => { if f == 0 { default_served += 1; } conn_leaf = f; conn = Some(s); }
+                                Err(e) => { sh.report(Viol { class: "worker:handshake-failed".into(), detail: json!({"sni": sni, "error": e}) }, &twin.trace, &path); break; }
+                            }
+                        }
+                        path_counter += 1;
+                        let marker = format!("/c17-{h}-{path_counter}");
+                        n_req += 1;
+                        let res = wk::h1_exchange(conn.as_mut().unwrap(), &host, &marker);
+                        let (status, reuse) = match res { Ok(x) => x, Err(_) => (0, false) };
+                        if !reuse { conn = None; }
+                        let routed = backend.saw(&marker);
+                        let allowed = row.route.contains(&(j as u8 + 1));
+                        if routed { n_routed += 1; } else if status == 421 { n_421 += 1; } else { *n_other.entry(status).or_insert(0) += 1; }
+                        // open deviation DefaultCertLegacySni observed: the default certificate was presented on this
+                        // connection (it covers none of the probe names) and the request was routed all the same
+                        if routed && allowed && conn_leaf == 0 { deviation_explained += 1; }
+                        if routed && !allowed {
+                            let class = if conn_leaf == 0 { "worker:routed-under-default-certificate" } else { "worker:routed-uncovered-authority" };
+                            sh.report(Viol { class: class.into(), detail: json!({"sni": sni, "authority": host, "status": status, "presented_certificate": conn_leaf,
+                                "served_names": row.names.iter().map(|n| c.names[*n as usize - 1].clone()).collect::<Vec<_>>(), "admissible_certificates": row.adm}) }, &twin.trace, &path);
+                        }
+                        if !routed && allowed && host == *auth {
+                            allowed_but_rejected += 1;
+                            if std::env::var("C17_DEBUG").is_ok() { eprintln!("h1 allowed-but-not-routed sni={sni} host={host} status={status} leaf={conn_leaf} names={:?}", row.names); }
+                        }
+                    }
+                }
+                // the same over HTTP/2: several streams with different :authority on ONE connection (coalescing)
+                if let Ok(mut hc) = vh::h2::h2_tls_client(front, sni, t) {
+                    if hc.client_preface(&[]) {
+                        for (j, auth) in c.probes.iter().enumerate() {
+                            path_counter += 1;
+                            let marker = format!("/c17h2-{h}-{path_counter}");
+                            let sid = 1 + 2 * j as u32;
+                            let block = vh::h2::request_block(&mut hc.hp, "GET", "https", auth, &marker, &[]);
+                            if !hc.send(&vh::h2::Frame::headers(sid, block, true, true)) { break; }
+                            let frames = hc.read_until(t, |f| (f.sid == sid && (f.end_stream() || f.ty == vh::h2::RST_STREAM)) || f.ty == vh::h2::GOAWAY);
+                            for f in &frames {
+                                if f.ty == vh::h2::SETTINGS && f.flags & vh::h2::FLAG_ACK == 0 { hc.send(&vh::h2::Frame::settings_ack()); }
+                                if f.ty == vh::h2::HEADERS { let _ = hc.hp.decode(&f.payload); }
+                            }
+                            let routed = backend.saw(&marker);
+                            // a GOAWAY (sozu closes the connection after a misdirected request) ends this connection:
+                            // the stream was not processed, nothing to judge unless it was routed
+                            if !routed && frames.iter().any(|f| f.ty == vh::h2::GOAWAY) { break; }
+                            n_h2 += 1;
+                            let allowed = row.route.contains(&(j as u8 + 1));
+                            if routed { n_routed += 1; }
+                            if routed && allowed && row.adm == [0] { deviation_explained += 1; }
+                            if routed && !allowed {
+                                let class = if row.adm == [0] { "worker:routed-under-default-certificate" } else { "worker:routed-uncovered-authority" };
+                                sh.report(Viol { class: class.into(), detail: json!({"sni": sni, "h2_authority": auth,
+                                    "served_names": row.names.iter().map(|n| c.names[*n as usize - 1].clone()).collect::<Vec<_>>(), "admissible_certificates": row.adm}) }, &twin.trace, &path);
+                            }
+                            if !routed && allowed {
+                                allowed_but_rejected += 1;
+                                if std::env::var("C17_DEBUG").is_ok() { eprintln!("h2 allowed-but-not-routed sni={sni} auth={auth} frames={:?}", frames.iter().map(|f| (f.ty, f.sid, f.flags)).collect::<Vec<_>>()); }
+                            }
+                            if frames.iter().any(|f| f.ty == vh::h2::GOAWAY) { break; }
+                        }
+                    }
+                }
+            }
+            *sh.histories_by_len.lock().unwrap().entry(path.len()).or_insert(0) += 1;
+            sh.visited_states.lock().unwrap().insert(twin.cur);
+        }
+        if std::env::var("C17_DEBUG").is_ok() { eprintln!("history {h} done at {:?}", t0.elapsed()); }
+        let _ = w.send_type(RequestType::HardStop(HardStop {}));
+        match w.join_within(Duration::from_secs(5)) {
+            Err(msg) => sh.report(Viol { class: "worker:panic".into(), detail: json!({"panic": msg}) }, &twin.trace, &path),
+            Ok(_) => {}
+        }
+        drop(backend);
+    }
+    json!({"commands": n_cmd, "tcp_tls_handshakes": n_hs, "h1_requests": n_req, "h2_streams": n_h2, "routed_to_backend": n_routed,
+           "answered_421": n_421, "other_statuses": n_other.iter().map(|(k, v)| (k.to_string(), *v)).collect::<BTreeMap<_, _>>(),
+           "covered_authority_not_routed": allowed_but_rejected, "connections_served_default_certificate": default_served,
+           "routed_under_default_certificate_as_listed_deviation": deviation_explained})
+}
+
 fn mixed_case(s: &str, rng: &mut Rng) -> String {
     s.chars().map(|ch| if rng.below(2) == 0 { ch.to_ascii_uppercase() } else { ch }).collect()
 }
@@ -653,6 +964,7 @@ fn main() {
     let sh = Arc::new(Shared { g, c, stats: Stats::default(), violations: Mutex::new(Vec::new()), classes: Mutex::new(BTreeMap::new()),
         visited_states: Mutex::new(BTreeSet::new()), histories_by_len: Mutex::new(BTreeMap::new()), samples: Mutex::new(Vec::new()) });
 
+    let mut worker_stats = Value::Null;
     // a single history given explicitly (re-run of a violation file): --mode one --ops 3,17,9
     if mode == "one" {
         let ops: Vec<usize> = ops_arg.split(',').filter_map(|s| s.trim().parse().ok()).collect();
@@ -801,6 +1113,8 @@ fn main() {
                 }
             }
         }
+    } else if mode == "worker" {
+        worker_stats = worker_leg(&sh, seed, walks, len);
     } else {
         eprintln!("unknown mode {mode}");
         std::process::exit(2);
@@ -819,6 +1133,6 @@ fn main() {
         "probes": st.probes.load(Ordering::SeqCst), "probes_with_several_admissible": st.multi_adm.load(Ordering::SeqCst),
         "probes_admissible_but_not_spec_choice": st.code_differs.load(Ordering::SeqCst),
         "steps_with_several_spec_successors": st.nondet_steps.load(Ordering::SeqCst),
-        "handshakes": st.handshakes.load(Ordering::SeqCst),
+        "handshakes": st.handshakes.load(Ordering::SeqCst), "worker": worker_stats,
         "classes": *sh.classes.lock().unwrap(), "samples": *sh.samples.lock().unwrap()}));
 }
